@@ -1,7 +1,7 @@
 #!/usr/bin/env python3
 """Regenerates MANIFEST.json from the table below (run after adding a check)."""
 import json, os, subprocess
-HOOK_COMMITS = ["b90bd7e", "6ee1992", "c78af28", "9917abb", "7a991b8", "bf9fb1e", "b78e961"]
+HOOK_COMMITS = ["b90bd7e", "6ee1992", "c78af28", "9917abb", "7a991b8", "bf9fb1e", "b78e961", "cc6b5af"]
 CHECKS = {
  "C01": dict(
    level=("proof", "Coq theorems for every register size n, target, ordered control/target pair, matrix and state: the blocked pair loop of "
@@ -208,14 +208,14 @@ CHECKS = {
    note="Trusted: Coq kernel; extraction; glue. std::filesystem canonicalisation, symlinks, '..' not modelled (generated trees are canonical; dangling symlinks and other non-module entries are added to a third of them and must be ignored). The implementation refuses import chains deeper than 1000 modules; the model has no bound.",
    technique="Coq proof (DFS invariant with fuel, parameterised recursion) + extraction-based correspondence on real directory trees"),
  "C20": dict(
-   level=("proof", "16 Coq theorems (axiom-free) over a model of parseSemVer/compareSemVer/hasLatest/the --update decision/parseChecksum/"
+   level=("proof", "17 Coq theorems (axiom-free) over a model of parseSemVer/compareSemVer/hasLatest/the --update decision/parseChecksum/"
           "checksumVerdict/the 72h notice throttle, for all strings, all checksums.txt contents and all invocation histories: a string is a version "
           "exactly when it is [v]MAJOR[.MINOR[.PATCH]][-suffix] (so a commit hash or '2.x' is never acted on), install/announce only if strictly "
-          "newer, an archive is installed only after verification against the digest listed for exactly its name, notices are 72 h apart and "
+          "newer, an archive is installed only after verification against the digest listed for exactly its name (the name of an entry is the whole rest of its line), notices are 72 h apart and "
           "absent when checks are disabled or the cache cannot be written; the model is tied to "
           "update_manager.cpp by running the extracted model and the real functions (harness TU, stubbed clock/lookup) on ~6k (quick) / "
           "~55k (thorough) generated cases plus an independent statement-level oracle.", "DESIGN.md §6 C20"),
-   note="Trusted: Coq kernel, extraction (ExtrOcamlBasic/ExtrOcamlString), OCaml/C++/Python glue, hooks H5, H6. Not modelled: network, TLS, tar, install; of cache I/O failures only 'the cache cannot be written' is modelled.",
+   note="Trusted: Coq kernel, extraction (ExtrOcamlBasic/ExtrOcamlString), OCaml/C++/Python glue, hooks H5, H6. Not modelled: network, TLS, tar, install; of cache I/O failures only 'the cache cannot be written or keeps nothing' is modelled; the model's clock is in whole seconds, millisecond histories are run against the statement.",
    technique="Coq proof over hand-written model + extraction-based correspondence with the C++ helpers"),
 }
 PENDING_REASON = "not yet built: the Coq model/theorems and correspondence for this property are scheduled (DESIGN.md §9); no check is registered until they exist"
